@@ -22,6 +22,11 @@
  *   xattr <fix> <k=v,k=v|-> ...                         sqfs_xattr_writer begin/add_kv/end per set, flush, reader load,
  *         read_all of every distinct index (<fix> is only looked at by the model)
  *   xsets <fix> <n> <vlen>                              n generated one-pair sets (digest output)
+ *   tree <pathhex|t|perm|uid|gid|mtime|xattr|extra>...
+ *         fstree_init + fstree_add_generic per node (t: d f l h b c p s; h = hard link, extra = target path hex; l: target
+ *         hex; b/c: devno; f: b:st:fi:fo:sz:words or x:st:sz:sp:fi:fo:words = the inode the block processor would have
+ *         left), fstree_post_process, sqfs_serialize_fstree on real meta writers (never-shrinking compressor), then a walk
+ *         from the root with sqfs_dir_reader_get_root_inode / open_dir / read / get_inode
  *
  * Inode description: see Driver/C01.lean.
  */
@@ -43,6 +48,9 @@
 #include "sqfs/block.h"
 #include "sqfs/dir.h"
 #include "sqfs/io.h"
+#include "fstree.h"
+#include "common.h"
+#include "simple_writer.h"
 #include "hexio.h"
 
 /* ------------------------------------------------------------------ memory file */
@@ -750,6 +758,154 @@ static void op_xsets(void)
 	free(idx); free(vals); free(vlens); sqfs_drop(xw);
 }
 
+
+/* --- tree --- */
+static sqfs_inode_generic_t *file_inode_from_spec(char *spec)
+{
+	char *k = field(&spec, ':'), *f[6], *w;
+	size_t nf = (k && k[0] == 'x') ? 5 : 4, i, nw, j;
+	sqfs_inode_generic_t *ino;
+	if (!k) return NULL;
+	for (i = 0; i < nf; ++i) if (!(f[i] = field(&spec, ':'))) return NULL;
+	w = field(&spec, ':');
+	if (!w) return NULL;
+	nw = count_list(w, ';');
+	ino = calloc(1, sizeof(*ino) + 4 * nw + 8);
+	ino->payload_bytes_available = 4 * nw; ino->payload_bytes_used = 4 * nw;
+	if (k[0] == 'x') {
+		ino->base.type = SQFS_INODE_EXT_FILE;
+		ino->data.file_ext.blocks_start = num(f[0]); ino->data.file_ext.file_size = num(f[1]);
+		ino->data.file_ext.sparse = num(f[2]); ino->data.file_ext.fragment_idx = num(f[3]);
+		ino->data.file_ext.fragment_offset = num(f[4]); ino->data.file_ext.nlink = 1;
+		ino->data.file_ext.xattr_idx = 0xFFFFFFFF;
+	} else {
+		ino->base.type = SQFS_INODE_FILE;
+		ino->data.file.blocks_start = num(f[0]); ino->data.file.fragment_index = num(f[1]);
+		ino->data.file.fragment_offset = num(f[2]); ino->data.file.file_size = num(f[3]);
+	}
+	j = 0;
+	if (strcmp(w, "-")) { char *p; while ((p = field(&w, ';')) != NULL) ino->extra[j++] = (sqfs_u32)num(p); }
+	return ino;
+}
+
+static void walk_dir(sqfs_dir_reader_t *dr, sqfs_inode_generic_t *dir, int depth, int *err)
+{
+	sqfs_dir_reader_state_t st;
+	int rc = sqfs_dir_reader_open_dir(dr, dir, &st, 0);
+	if (rc) { *err = rc; return; }
+	if (depth > 64) { *err = SQFS_ERROR_LINK_LOOP; return; }
+	for (;;) {
+		sqfs_dir_node_t *ent = NULL;
+		sqfs_inode_generic_t *ino = NULL;
+		rc = sqfs_dir_reader_read(dr, &st, &ent);
+		if (rc > 0) break;
+		if (rc < 0) { *err = rc; return; }
+		rc = sqfs_dir_reader_get_inode(dr, st.ent_ref, &ino);
+		if (rc) { sqfs_free(ent); *err = rc; return; }
+		fputs(" ( ", stdout);
+		hex_print(stdout, ent->name, (size_t)ent->size + 1);
+		putchar(' ');
+		print_inode(ino);
+		if (ino->base.type == SQFS_INODE_DIR || ino->base.type == SQFS_INODE_EXT_DIR) walk_dir(dr, ino, depth + 1, err);
+		fputs(" )", stdout);
+		sqfs_free(ent); sqfs_free(ino);
+		if (*err) return;
+	}
+}
+
+static void op_tree(void)
+{
+	fstree_t fs;
+	fstree_defaults_t def;
+	sqfs_writer_t wr;
+	sqfs_super_t super;
+	sqfs_dir_reader_t *dr;
+	sqfs_inode_generic_t *root = NULL;
+	unsigned char *stream;
+	size_t i, n, split;
+	int rc, werr = 0;
+	char **paths = calloc(ntok + 1, sizeof(*paths)), **extras = calloc(ntok + 1, sizeof(*extras));
+	char *types = calloc(ntok + 1, 1);
+	sqfs_u32 *xattrs = calloc(ntok + 1, sizeof(*xattrs));
+	memset(&def, 0, sizeof(def));
+	def.mode = 0755;
+	if (fstree_init(&fs, &def)) { puts("err init"); return; }
+	for (i = 1; i < ntok; ++i) {
+		char *s = toks[i], *ph = field(&s, '|'), *t = field(&s, '|'), *perm = field(&s, '|'), *uid = field(&s, '|'),
+		     *gid = field(&s, '|'), *mt = field(&s, '|'), *xa = field(&s, '|'), *ex = field(&s, '|');
+		unsigned char *pb, *eb = NULL; long pl;
+		sqfs_dir_entry_t *ent;
+		const char *extra = NULL;
+		sqfs_u16 tm = 0;
+		if (!ph || !t || !perm || !uid || !gid || !mt || !xa || !ex || (pl = hex_decode_tok(ph, &pb, 1)) < 0) { puts("bad-op"); return; }
+		switch (t[0]) {
+		case 'd': tm = S_IFDIR; break; case 'f': tm = S_IFREG; break; case 'l': tm = S_IFLNK; break;
+		case 'h': tm = S_IFLNK; break; case 'b': tm = S_IFBLK; break; case 'c': tm = S_IFCHR; break;
+		case 'p': tm = S_IFIFO; break; case 's': tm = S_IFSOCK; break; default: puts("bad-op"); return;
+		}
+		ent = calloc(1, sizeof(*ent) + pl + 1);
+		memcpy(ent->name, pb, pl);
+		ent->mode = tm | (sqfs_u16)num(perm); ent->uid = num(uid); ent->gid = num(gid); ent->mtime = (sqfs_s64)num(mt);
+		if (t[0] == 'h') ent->flags |= SQFS_DIR_ENTRY_FLAG_HARD_LINK;
+		if (t[0] == 'b' || t[0] == 'c') ent->rdev = num(ex);
+		if (t[0] == 'l' || t[0] == 'h') { if (hex_decode_tok(ex, &eb, 1) < 0) { puts("bad-op"); return; } extra = (char *)eb; }
+		paths[i] = (char *)pb; types[i] = t[0]; xattrs[i] = (sqfs_u32)num(xa); extras[i] = ex;
+		if (fstree_add_generic(&fs, ent, extra) == NULL) { printf("add %zu failed\n", i - 1); free(ent); goto out; }
+		free(ent); free(eb);
+	}
+	if (fstree_post_process(&fs)) { puts("post failed"); goto out; }
+	for (i = 1; i < ntok; ++i) {
+		tree_node_t *nd = fstree_get_node_by_path(&fs, fs.root, paths[i], false, false);
+		if (!nd) { puts("lookup failed"); goto out; }
+		if (types[i] != 'h') nd->xattr_idx = xattrs[i];
+		if (types[i] == 'f') {
+			nd->data.file.inode = file_inode_from_spec(extras[i]);
+			if (!nd->data.file.inode) { puts("bad-op"); goto out; }
+		}
+	}
+	memset(&wr, 0, sizeof(wr));
+	mf_used = 0;
+	wr.outfile = &memfile;
+	wr.cmp = &raw_cmp;
+	wr.im = sqfs_meta_writer_create(&memfile, &raw_cmp, 0);
+	wr.dm = sqfs_meta_writer_create(&memfile, &raw_cmp, SQFS_META_WRITER_KEEP_IN_MEMORY);
+	wr.dirwr = sqfs_dir_writer_create(wr.dm, 0);
+	wr.idtbl = sqfs_id_table_create(0);
+	wr.fs = fs;
+	rc = sqfs_serialize_fstree("tree", &wr);
+	fs = wr.fs;
+	split = wr.super.directory_table_start;
+	printf("ret %d n=%zu root=%llu", -rc, fs.unique_inode_count, (unsigned long long)wr.super.root_inode_ref);
+	if (rc == 0) {
+		size_t save = mf_used;
+		stream = malloc(mf_used + 1);
+		mf_used = split; n = strip_headers(0, stream);
+		fputs(" inodes=", stdout); hex_print(stdout, stream, n);
+		mf_used = save; n = strip_headers(split, stream);
+		fputs(" dirs=", stdout); hex_print(stdout, stream, n);
+		fputs(" ids=", stdout);
+		{ sqfs_u32 v; size_t k; for (k = 0; sqfs_id_table_index_to_id(wr.idtbl, (sqfs_u16)k, &v) == 0 && k < 65536; ++k) printf("%s%u", k ? "," : "", v); }
+		free(stream);
+		memset(&super, 0, sizeof(super));
+		super.block_size = 4096;
+		super.inode_table_start = 0; super.directory_table_start = split; super.id_table_start = mf_used;
+		super.fragment_table_start = ~0ULL; super.export_table_start = ~0ULL; super.root_inode_ref = wr.super.root_inode_ref;
+		dr = sqfs_dir_reader_create(&super, &raw_unc, &memfile, 0);
+		rc = sqfs_dir_reader_get_root_inode(dr, &root);
+		fputs(" walk", stdout);
+		if (rc) werr = rc;
+		else { fputs(" ( - ", stdout); print_inode(root); walk_dir(dr, root, 0, &werr); fputs(" )", stdout); }
+		printf(" end %d", -werr);
+		sqfs_free(root); sqfs_drop(dr);
+	}
+	putchar('\n');
+	sqfs_drop(wr.dirwr); sqfs_drop(wr.dm); sqfs_drop(wr.im); sqfs_drop(wr.idtbl);
+out:
+	fstree_cleanup(&fs);
+	for (i = 1; i < ntok; ++i) free(paths[i]);
+	free(paths); free(extras); free(types); free(xattrs);
+}
+
 int main(void)
 {
 	char *line = NULL;
@@ -769,6 +925,7 @@ int main(void)
 		else if (!strcmp(toks[0], "frag")) op_frag();
 		else if (!strcmp(toks[0], "xattr")) op_xattr();
 		else if (!strcmp(toks[0], "xsets")) op_xsets();
+		else if (!strcmp(toks[0], "tree")) op_tree();
 		else puts("bad-op");
 		fflush(stdout);
 	}
